@@ -39,8 +39,9 @@ CONFIG = {
         "PropSetModel.lean) and tied through the NewRoot class of every message; the field factories' kind checks and the "
         "array / map item switches are modelled but reached on the Go side by the codec oracle only; internal/codec itself is "
         "the codec cluster's model",
-        "J5V/Schema/CodecBridge.lean toEnv (the reflected registry rendered as the codec model's Env) is not validated by a "
-        "stream; C18_reflected_itemsOk depends only on the field shapes, which are the reader model's. C18_empty_message and "
+        "J5V/Schema/EnvModel.lean toEnv (the reflected registry rendered as the codec model's Env) is validated per root def by "
+        "the `env=` part of the schema.reflect result (Go side: envdump.go, a copy of the codec harness's prop / field / "
+        "presence dump over the real structs); the `res` table is not compared. C18_empty_message(_oneof) and "
         "C18_reflected_decode_no_panic are statements about the codec cluster's model (J5V/Codec/{Encode,Decode}.lean, "
         "imported read-only; its tie to internal/codec is C01/C06's correspondence, not this check's)",
     ],
